@@ -306,26 +306,70 @@ func checkUnmarshal(c *core.Ctx, fn *ssa.Function, typ string, flags *types.Var,
 	c.Check("R3", "decode-width:"+key, call.Pos(), w == width,
 		fmt.Sprintf("flag word read as %d bits, the field and table are %d bits", w, width))
 	buf := core.CallArgs(call)[0]
-	ms, ok := buf.(*ssa.MakeSlice)
-	if !ok {
-		c.Undecided("R3", "decode-buffer:"+key, call.Pos(), "decoded buffer is not a fresh make([]byte, n) (zero padding cannot be established)")
+	// the scratch buffer: a fresh make([]byte, n), or a zero-valued local array used through arr[:]
+	var uses []ssa.Instruction // instructions that use (a whole-slice view of) the buffer
+	var views []ssa.Value
+	var iv core.Interval
+	var bufPos token.Pos
+	switch bx := buf.(type) {
+	case *ssa.MakeSlice:
+		iv = core.EvalInt(bx.Len, call.Block())
+		views = []ssa.Value{bx}
+		bufPos = bx.Pos()
+	case *ssa.Slice:
+		al, isAl := bx.X.(*ssa.Alloc)
+		var arr *types.Array
+		if isAl {
+			arr, _ = al.Type().(*types.Pointer).Elem().Underlying().(*types.Array)
+		}
+		if arr == nil || bx.Low != nil || bx.High != nil {
+			c.Undecided("R3", "decode-buffer:"+key, call.Pos(), "decoded buffer is neither a fresh make([]byte, n) nor a whole local array (zero padding cannot be established)")
+			return
+		}
+		iv = core.Interval{Lo: arr.Len(), Hi: arr.Len()}
+		bufPos = al.Pos()
+		for _, r := range *al.Referrers() {
+			sl, isSl := r.(*ssa.Slice)
+			if !isSl || sl.Low != nil || sl.High != nil {
+				if _, isDbg := r.(*ssa.DebugRef); !isDbg {
+					c.Undecided("R3", "decode-buffer:"+key, call.Pos(), "the scratch array is used other than through arr[:]")
+					return
+				}
+				continue
+			}
+			views = append(views, sl)
+		}
+	default:
+		c.Undecided("R3", "decode-buffer:"+key, call.Pos(), "decoded buffer is not a fresh make([]byte, n) or local array (zero padding cannot be established)")
 		return
 	}
+	isView := func(v ssa.Value) bool {
+		for _, x := range views {
+			if x == v {
+				return true
+			}
+		}
+		return false
+	}
+	for _, v := range views {
+		if refs := v.Referrers(); refs != nil {
+			uses = append(uses, *refs...)
+		}
+	}
 	// length obligation: len(buf) >= w/8 at the call
-	iv := core.EvalInt(ms.Len, call.Block())
 	c.Check("R3", "decode-buflen:"+key, call.Pos(), iv.Lo >= int64(w/8),
 		fmt.Sprintf("buffer length in [%d,%d] at the read of %d octets", iv.Lo, iv.Hi, w/8))
 	// the only writes into buf: one copy(buf, b) that dominates the read
 	var copies int
 	okWrites := true
-	if refs := ms.Referrers(); refs != nil {
-		for _, r := range *refs {
+	{
+		for _, r := range uses {
 			switch y := r.(type) {
 			case *ssa.Call:
 				if y == call {
 					continue
 				}
-				if bi, ok := y.Call.Value.(*ssa.Builtin); ok && bi.Name() == "copy" && y.Call.Args[0] == ms && y.Call.Args[1] == b {
+				if bi, ok := y.Call.Value.(*ssa.Builtin); ok && bi.Name() == "copy" && isView(y.Call.Args[0]) && y.Call.Args[1] == b {
 					copies++
 					if !core.InstrDominates(y, call) {
 						okWrites = false
@@ -342,7 +386,7 @@ func checkUnmarshal(c *core.Ctx, fn *ssa.Function, typ string, flags *types.Var,
 			}
 		}
 	}
-	c.Check("R3", "decode-copy:"+key, ms.Pos(), copies == 1 && okWrites,
+	c.Check("R3", "decode-copy:"+key, bufPos, copies == 1 && okWrites,
 		"the fresh buffer receives exactly the IE payload by one copy() before the read, and nothing else (zero padding above the present octets)")
 	// too-short guard: the read is reachable only with len(b) >= minLen, and with nothing more demanded
 	lb := core.EvalInt(lenCall(fn, b), call.Block())
@@ -414,6 +458,30 @@ func checkFlagIE(c *core.Ctx, fn *ssa.Function, typ string, flags *types.Var, ct
 			}
 		}
 	})
+	// the octets may be produced by an own helper shared by the encoders (triggerOctets(flags) []byte): the
+	// write and the [:3] view are then judged inside the helper, whose parameter stands for the Flags handed in
+	body := fn             // where PutUint and the buffer live
+	var flagsArg ssa.Value // what stands for "the receiver's Flags" in body
+	var octets ssa.Value   // the value handed to the constructor, as seen in body
+	if put == nil && mk != nil && len(mk.Call.Args) == 1 {
+		if hc, isCall := mk.Call.Args[0].(*ssa.Call); isCall && !hc.Call.IsInvoke() {
+			if h := core.StaticFn(hc); h != nil && h.Blocks != nil && c.P.IsOwnFn(h) && len(hc.Call.Args) == 1 && core.IsFieldOf(hc.Call.Args[0], core.Recv(fn), flags) {
+				core.Instrs(h, func(in ssa.Instruction) {
+					if cl, ok := in.(*ssa.Call); ok {
+						if _, op, _, ok := core.EndianCall(core.Callee(cl)); ok && op == "PutUint" {
+							put = cl
+						}
+					}
+					if r, ok := in.(*ssa.Return); ok && len(r.Results) == 1 {
+						octets = r.Results[0]
+					}
+				})
+				if put != nil && len(h.Params) == 1 {
+					body, flagsArg = h, h.Params[0]
+				}
+			}
+		}
+	}
 	if put == nil || mk == nil {
 		c.Undecided("R3", "encode:"+key, fn.Pos(), "encoder is not of the form PutUintNN into a buffer handed to ie."+ctor)
 		return
@@ -422,14 +490,25 @@ func checkFlagIE(c *core.Ctx, fn *ssa.Function, typ string, flags *types.Var, ct
 	c.Check("R3", "encode-order:"+key, put.Pos(), order == "little" && w == 32,
 		fmt.Sprintf("flag word written %s-endian/%d bits (must be little-endian, 32)", order, w))
 	args := core.CallArgs(put)
-	c.Check("R3", "encode-source:"+key, put.Pos(), core.IsFieldOf(args[1], core.Recv(fn), flags), "encoded value is the receiver's Flags")
+	if body == fn {
+		c.Check("R3", "encode-source:"+key, put.Pos(), core.IsFieldOf(args[1], core.Recv(fn), flags), "encoded value is the receiver's Flags")
+	} else {
+		c.Check("R3", "encode-source:"+key, put.Pos(), args[1] == flagsArg, "encoded value is the receiver's Flags (handed to "+core.FnName(body)+")")
+	}
 	// buffer: slice of a fresh [4]byte / make([]byte,4)
 	bufLen := core.LenInterval(args[0], put.Block())
 	fresh := isFreshBytes(args[0])
 	c.Check("R3", "encode-buffer:"+key, put.Pos(), fresh && bufLen.Lo >= 4, fmt.Sprintf("buffer is fresh and >= 4 octets (len in [%d,%d])", bufLen.Lo, bufLen.Hi))
 	// constructor gets buf[:3]
 	var okArg bool
+	ctorArg := ssa.Value(nil)
 	if len(mk.Call.Args) == 1 {
+		ctorArg = mk.Call.Args[0]
+	}
+	if body != fn {
+		ctorArg = octets
+	}
+	if ctorArg != nil {
 		// same backing store, both from offset 0: buf / buf[:] / arr[:]
 		root := func(v ssa.Value) ssa.Value {
 			v = core.Unwrap(v)
@@ -446,13 +525,19 @@ func checkFlagIE(c *core.Ctx, fn *ssa.Function, typ string, flags *types.Var, ct
 				v = core.Unwrap(sl.X)
 			}
 		}
-		if sl, ok := mk.Call.Args[0].(*ssa.Slice); ok && root(sl.X) == root(args[0]) && sl.Low == nil {
+		if sl, ok := ctorArg.(*ssa.Slice); ok && root(sl.X) == root(args[0]) && sl.Low == nil {
 			if n, ok := core.ConstInt(sl.High); ok && n == 3 {
 				okArg = true
 			}
 		}
 	}
-	c.Check("R3", "encode-octets:"+key, mk.Pos(), okArg && core.InstrDominates(put, mk),
+	after := false
+	if body == fn {
+		after = core.InstrDominates(put, mk)
+	} else if sl, ok := octets.(*ssa.Slice); ok {
+		after = core.InstrDominates(put, sl)
+	}
+	c.Check("R3", "encode-octets:"+key, mk.Pos(), okArg && after,
 		"ie."+ctor+" receives octets 0..2 of the buffer after the write (three flag octets, low octet first)")
 	// the IE returned is the constructor's result
 	core.Instrs(fn, func(in ssa.Instruction) {
